@@ -12,6 +12,7 @@ __all__ = [
 
 import collections
 import logging
+from collections.abc import Collection
 from typing import Protocol
 
 import onnx_ir as ir
@@ -109,6 +110,24 @@ class NameFixPass(ir.passes.InPlacePass):
         # Counters for generating unique names (using list to pass by reference)
         value_counter: collections.Counter[str] = collections.Counter()
         node_counter: collections.Counter[str] = collections.Counter()
+
+        # Names that exist before the pass runs. Generated names must avoid them so that
+        # a name that is already unique is never taken away from its owner.
+        self._reserved_value_names: set[str] = set()
+        self._reserved_node_names: set[str] = set()
+
+        def collect_names(graph) -> None:
+            values = [*graph.inputs, *graph.outputs]
+            if isinstance(graph, ir.Graph):
+                values.extend(graph.initializers.values())
+            self._reserved_value_names.update(v.name for v in values if v.name)
+
+        for node in ir.traversal.RecursiveGraphIterator(graph_like, enter_graph=collect_names):
+            if node.name:
+                self._reserved_node_names.add(node.name)
+            self._reserved_value_names.update(
+                v.name for v in (*node.inputs, *node.outputs) if v is not None and v.name
+            )
 
         def enter_graph(graph_like) -> None:
             """Callback for entering a subgraph."""
@@ -210,7 +229,9 @@ class NameFixPass(ir.passes.InPlacePass):
         )
 
         preferred_name = self._name_generator.generate_value_name(value)
-        value.name = _find_and_record_next_unique_name(preferred_name, used_names, counter)
+        value.name = _find_and_record_next_unique_name(
+            preferred_name, used_names, counter, self._reserved_value_names
+        )
         logger.debug("Assigned name %s to unnamed value", value.name)
         return True
 
@@ -223,7 +244,9 @@ class NameFixPass(ir.passes.InPlacePass):
         )
 
         preferred_name = self._name_generator.generate_node_name(node)
-        node.name = _find_and_record_next_unique_name(preferred_name, used_names, counter)
+        node.name = _find_and_record_next_unique_name(
+            preferred_name, used_names, counter, self._reserved_node_names
+        )
         logger.debug("Assigned name %s to unnamed node", node.name)
         return True
 
@@ -244,7 +267,9 @@ class NameFixPass(ir.passes.InPlacePass):
 
         # If name is already used, make it unique
         base_name = self._name_generator.generate_value_name(value)
-        value.name = _find_and_record_next_unique_name(base_name, used_names, counter)
+        value.name = _find_and_record_next_unique_name(
+            base_name, used_names, counter, self._reserved_value_names
+        )
         logger.debug("Renamed value from %s to %s for uniqueness", original_name, value.name)
         return True
 
@@ -263,17 +288,25 @@ class NameFixPass(ir.passes.InPlacePass):
 
         # If name is already used, make it unique
         base_name = self._name_generator.generate_node_name(node)
-        node.name = _find_and_record_next_unique_name(base_name, used_names, counter)
+        node.name = _find_and_record_next_unique_name(
+            base_name, used_names, counter, self._reserved_node_names
+        )
         logger.debug("Renamed node from %s to %s for uniqueness", original_name, node.name)
         return True
 
 
 def _find_and_record_next_unique_name(
-    preferred_name: str, used_names: set[str], counter: collections.Counter[str]
+    preferred_name: str,
+    used_names: set[str],
+    counter: collections.Counter[str],
+    reserved_names: Collection[str] = (),
 ) -> str:
-    """Generate a unique name based on the preferred name and current counter."""
+    """Generate a unique name based on the preferred name and current counter.
+
+    Names in ``reserved_names`` (names that existed before the pass) are skipped.
+    """
     new_name = preferred_name
-    while new_name in used_names:
+    while new_name in used_names or new_name in reserved_names:
         counter[preferred_name] += 1
         new_name = f"{preferred_name}_{counter[preferred_name]}"
     used_names.add(new_name)
